@@ -76,6 +76,22 @@ Definition local_accepts (p : pool) (o : op) : list N :=
   | _ => []
   end.
 
+(* Clause 9 (coalesced head changes): what the merged request of a burst of
+   scheduler requests must be - the new head of the LAST reset request, the old
+   head of the first one. *)
+Fixpoint last_reset (rs : list req) : option hdr :=
+  match rs with
+  | [] => None
+  | RReset _ n :: r => match last_reset r with Some x => Some x | None => Some n end
+  | RPromote _ :: r => last_reset r
+  end.
+Fixpoint first_old (rs : list req) : option hdr :=
+  match rs with
+  | [] => None
+  | RReset o _ :: _ => o
+  | RPromote _ :: r => first_old r
+  end.
+
 (* the history used as witness of the listed finding and in the non-vacuity
    examples: head A mined nonces 3,4 of account 0; the pool takes 5,6,7 (and
    two transactions of account 1, one of them gapped); then the chain switches
